@@ -20,7 +20,8 @@ from engine.llsym import State
 LEVEL = 'model_checking'
 ENTRY = '@harness_prec'
 NSHAPES = 14
-SHAPE_NAMES = ['a', '-a', '!a', '~a', '+a', '^a', '^mut a', 'a(b)', 'a[0]', 'a.b', 'a.try', 'a^', 'T.(a)', '-a.b']
+SHAPE_NAMES = ['a', '-a', '!a', '~a', '+a', '^a', '^mut a', 'a(b)', 'a[0]', 'a.b', 'a.try', 'a^', 'T.(a)', '-a.b', '?', '?']
+SHAPE_NAMES += [pre + post for pre in '-!~+' for post in ['a(b)', 'a[0]', 'a.b', 'a.try', 'a^', 'T.(a)', 'T.{}', 'T.[a]']]
 OPS = ['||', '&&', '<', '<=', '>', '>=', '==', '!=', '+', '-', '|', '~', '*', '/', '%', '&', '<<', '>>']
 
 
@@ -58,7 +59,7 @@ def run(chk, tier, seed):
     cases = []
     for _ in range(20):
         n = rnd.choice([1, 2, 3])
-        cases.append(([rnd.randrange(18) for _ in range(n)], [rnd.randrange(NSHAPES) for _ in range(n + 1)]))
+        cases.append(([rnd.randrange(18) for _ in range(n)], [rnd.choice(list(range(NSHAPES)) + list(range(16, 48))) for _ in range(n + 1)]))
     llcheck.selftest(chk, mod, so, ENTRY, concrete, lambda c: native_args(*c), cases, ret='c_uint32', ret_bits=32)
     parts = []
     # plain operands, 1..3 operators (all 18^k combinations are covered symbolically)
@@ -75,6 +76,12 @@ def run(chk, tier, seed):
             parts.append((2, (a, b, 0))); parts.append((2, (0, a, b)))
         for _ in range(40):
             parts.append((3, tuple(rnd.randrange(NSHAPES) for _ in range(4))))
+    # prefix operator x postfix operator on one operand (shapes 16..47), at every operand position
+    for sh in range(16, 48):
+        for pos in range(3 if tier == 'thorough' else 2):
+            shapes = [0, 0, 0]; shapes[pos] = sh
+            parts.append((2, tuple(shapes)))
+        parts.append((1, (sh, sh)))
     parts = sorted(set(parts))
     job = Job(ENTRY, build, judge_zero)
     tot = explore(chk, mod, job, parts, nproc=16)
